@@ -91,7 +91,7 @@ def check(world, tier):
                 forms[what].add("configured")    # the value the client asked for, never overwritten
             else:
                 # truncation of an adopted value (windowsize: usize -> u16)
-                forms[what].add("adopted" if isinstance(nm, str) and nm.startswith("trunc#") else "other")
+                forms[what].add("adopted" if ((isinstance(nm, str) and nm.startswith("trunc#")) or (isinstance(nm, tuple) and nm and nm[0] == "trunc")) else "other")
     for what, dflt in (("blk", 512), ("ws", 1)):
         b.ob("adopted" in forms[what], "oack-%s-ignored" % what, "no Worker is built from the %s of the server's OACK (forms: %s)" % (what, sorted(forms[what])),
              sample={what: sorted(forms[what])})
@@ -107,7 +107,7 @@ def check(world, tier):
             continue  # defaults on the ACK path
         syms = [eng.sym_names[s] for s, _ in v[1][1]] if v[0] == "i" else []
         ok = any((isinstance(n, tuple) and n[0] == "init" and isinstance(n[1], tuple) and n[1][0] == "P" and isinstance(n[1][1], tuple) and n[1][1] and n[1][1][0] == "elem")
-                 or (isinstance(n, str) and n.startswith("trunc#")) for n in syms)
+                 or (((isinstance(n, str) and n.startswith("trunc#")) or (isinstance(n, tuple) and n and n[0] == "trunc"))) for n in syms)
         b.ob(ok, "adopted-value-not-from-oack", "a client setting is overwritten with something that is not an option value of the received OACK",
              eng.frame_bodies[node[0]].loc(node[1]) if node[0] in eng.frame_bodies else "", sample={"adopted": "option.value of the OACK"})
     # ---------------------------------------------------------------- c
